@@ -175,13 +175,13 @@ Qed.
 Lemma set_teacher_kept (n m : node) t : dims_kept n m -> dims_kept n (set_teacher m t).
 Proof. intro K. eapply dims_kept_trans; [exact K|apply dims_kept_set_teacher]. Qed.
 
-Lemma train_op_after (n n' : node) x y : after n (train_op n x y) = Some n' ->
+Lemma train_op_after (n n' : node) x y yi : after n (train_op n x y yi) = Some n' ->
   dims_kept n n' /\ (wf n -> wf n') /\ teacher n' = None.
 Proof.
   unfold train_op. destruct (seq2 x) as [[t f]|]; [|discriminate].
   set (ydata := match y with YData yd => seq2 yd | _ => None end). clearbody ydata.
   destruct (teacher n) as [td|].
-  - assert (G : after n (match (if initialized n then ROk n else initialize n [f] (match ydata with Some (_, m) => Some m | None => td end)) with
+  - assert (G : after n (match (if initialized n then ROk n else initialize n [f] (match ydata with Some (_, m) => if yi then Some m else td | None => td end)) with
        | RErr e => Err PInit e (set_teacher n None)
        | ROk n1 =>
            if negb (match input_dim n1 with Some d => lnat_eqb d [f] | None => false end) then Irregular
@@ -203,7 +203,7 @@ Proof.
       - simpl. intro H; inversion H; subst. split; [apply dims_kept_set_teacher|split; [apply wf_set_teacher|reflexivity]]. }
     destruct y; destruct ydata as [[ty m]|]; try exact G; discriminate.
   - destruct ydata as [[ty m]|]; [|discriminate]. destruct (negb _); [discriminate|].
-    destruct (if initialized n then ROk n else initialize n [f] (Some m)) as [n1|] eqn:E.
+    destruct (if initialized n then ROk n else initialize n [f] _) as [n1|] eqn:E.
     + apply init_if_needed_ok in E as (K & I & W & _).
       destruct (_ && _); [|discriminate]. simpl. intro H; inversion H; subst; clear H. split; [|split; [|reflexivity]].
       * apply set_teacher_kept. eapply dims_kept_trans; [exact K|].
@@ -225,8 +225,8 @@ Proof.
     + simpl. intro H; inversion H; subst. split; [apply dims_kept_refl|auto].
   - destruct (check_xy n x y false false true) as [[x' y']|e].
     + fold (registered n y'). intro H.
-      assert (A : after (registered n y') (train_op (registered n y') x' y') = Some n').
-      { destruct (train_op (registered n y') x' y'); simpl in *; exact H. }
+      assert (A : after (registered n y') (train_op (registered n y') x' y' (y_iterable y)) = Some n').
+      { destruct (train_op (registered n y') x' y' (y_iterable y)); simpl in *; exact H. }
       apply train_op_after in A as (K & W & _). destruct (registered_kept n y') as (K0 & W0 & _).
       split; [eapply dims_kept_trans; eauto|auto].
     + simpl. intro H; inversion H; subst. split; [apply dims_kept_refl|auto].
@@ -275,13 +275,13 @@ Proof.
   - intro H; inversion H; auto.
 Qed.
 
-Lemma train_op_err (n n' : node) x y p e : train_op n x y = Err p e n' ->
+Lemma train_op_err (n n' : node) x y yi p e : train_op n x y yi = Err p e n' ->
   p = PCore \/ (p = PInit /\ n' = set_teacher n None).
 Proof.
   unfold train_op. destruct (seq2 x) as [[t f]|]; [|discriminate].
   set (ydata := match y with YData yd => seq2 yd | _ => None end). clearbody ydata.
   destruct (teacher n) as [td|].
-  - assert (G : (match (if initialized n then ROk n else initialize n [f] (match ydata with Some (_, m) => Some m | None => td end)) with
+  - assert (G : (match (if initialized n then ROk n else initialize n [f] (match ydata with Some (_, m) => if yi then Some m else td | None => td end)) with
        | RErr e => Err PInit e (set_teacher n None)
        | ROk n1 =>
            if negb (match input_dim n1 with Some d => lnat_eqb d [f] | None => false end) then Irregular
@@ -299,7 +299,7 @@ Proof.
       - intro H; inversion H; auto. }
     destruct y; destruct ydata as [[ty m]|]; try exact G; discriminate.
   - destruct ydata as [[ty m]|]; [|discriminate]. destruct (negb _); [discriminate|].
-    destruct (if initialized n then ROk n else initialize n [f] (Some m)) as [n1|].
+    destruct (if initialized n then ROk n else initialize n [f] _) as [n1|].
     + destruct (_ && _); discriminate.
     + intro H; inversion H; auto.
 Qed.
@@ -406,13 +406,13 @@ Proof.
   destruct (nkind n1), (trained n1); try exact G; discriminate.
 Qed.
 
-Lemma train_op_ok (n n' : node) x y out : train_op n x y = Ok n' out ->
+Lemma train_op_ok (n n' : node) x y yi out : train_op n x y yi = Ok n' out ->
   initialized n' = true /\ exists t f, seq2 x = Some (t, f) /\ out = Some (t, width n').
 Proof.
   unfold train_op. destruct (seq2 x) as [[t f]|]; [|discriminate].
   set (ydata := match y with YData yd => seq2 yd | _ => None end). clearbody ydata.
   destruct (teacher n) as [td|].
-  - assert (G : (match (if initialized n then ROk n else initialize n [f] (match ydata with Some (_, m) => Some m | None => td end)) with
+  - assert (G : (match (if initialized n then ROk n else initialize n [f] (match ydata with Some (_, m) => if yi then Some m else td | None => td end)) with
        | RErr e => Err PInit e (set_teacher n None)
        | ROk n1 =>
            if negb (match input_dim n1 with Some d => lnat_eqb d [f] | None => false end) then Irregular
@@ -429,7 +429,7 @@ Proof.
       destruct (width n1 =? tdim); [|discriminate]. intro H; inversion H; subst. split; [exact I|]. exists t, f. auto. }
     destruct y; destruct ydata as [[ty m]|]; try exact G; discriminate.
   - destruct ydata as [[ty m]|]; [|discriminate]. destruct (negb _); [discriminate|].
-    destruct (if initialized n then ROk n else initialize n [f] (Some m)) as [n1|] eqn:E; [|discriminate].
+    destruct (if initialized n then ROk n else initialize n [f] _) as [n1|] eqn:E; [|discriminate].
     apply init_if_needed_ok in E as (K & I & W & _).
     destruct (_ && _); [|discriminate]. intro H; inversion H; subst. split; [exact I|]. exists t, f. auto.
 Qed.
@@ -746,7 +746,7 @@ Proof.
   - destruct (check_xy n x None false true true) as [[x' y']|e0]; [|discriminate]. apply F.
   - destruct (check_xy n x y false false true) as [[x' y']|e0]; [|discriminate].
     fold (registered n y'). intros H _.
-    assert (A : after (registered n y') (train_op (registered n y') x' y') = Some n') by (rewrite H; reflexivity).
+    assert (A : after (registered n y') (train_op (registered n y') x' y' (y_iterable y)) = Some n') by (rewrite H; reflexivity).
     apply train_op_after in A. tauto.
   - destruct (check_xy n x _ true false true) as [[x' y']|e0]; [|discriminate].
     destruct (partial_fit_op n x' y') as [[n1|e1]|[]] eqn:E; try discriminate.
@@ -777,8 +777,8 @@ Proof.
   unfold step. destruct (negb _); [simpl; intro H; inversion H; subst; auto|].
   destruct (check_xy n x y false false true) as [[x' y']|e0]; [|simpl; intro H; inversion H; subst; auto].
   fold (registered n y'). intros H _.
-  assert (A : after (registered n y') (train_op (registered n y') x' y') = Some n').
-  { destruct (train_op (registered n y') x' y'); simpl in *; exact H. }
+  assert (A : after (registered n y') (train_op (registered n y') x' y' (y_iterable y)) = Some n').
+  { destruct (train_op (registered n y') x' y' (y_iterable y)); simpl in *; exact H. }
   apply train_op_after in A. tauto.
 Qed.
 
